@@ -128,6 +128,7 @@ PROPS = {
         "theorems": [
             "BPT.Props.C04.reachable_valid", "BPT.Props.C04.all_leaves_same_depth", "BPT.Props.C04.root_branch_two_children",
             "BPT.Props.C04.node_clauses", "BPT.Props.C04.chain_is_leaves", "BPT.Props.C04.min_entries", "BPT.Props.C04.height_log",
+            "BPT.Props.C04.validators_accept", "BPT.Rust.checkNode_complete", "BPT.Rust.view_checkInvariants", "BPT.Rust.view_checkDetailed",
             "BPT.Rust.insert_sinv", "BPT.Rust.remove_sinv", "BPT.Rust.getMutWrite_sinv", "BPT.Rust.sinv_fresh",
             "BPT.Rust.insertRec_spec", "BPT.Rust.insertRec_sized", "BPT.Rust.removeRec_spec", "BPT.Rust.rebalance_spec",
             "BPT.Rust.insertRec_links", "BPT.Rust.removeRec_links",
@@ -145,7 +146,6 @@ PROPS = {
              "quick": {"cases": 100, "len": 300}, "thorough": {"cases": 3000, "len": 400}},
         ],
         "nontrivial": "a case is non-trivial when the tree reached a branch root and at least one removal returned a value; the independent structural checker and the three validators run after every mutation; distinct = distinct op-line sequences",
-        "trusted_extra": ["`check_invariants()/validate()` accepting every reachable state is observed by the oracle after every mutation and by the model/implementation correspondence of the `check` op; the Lean theorem `validators_accept` is not proved yet"],
     },
     "C06": {
         "title": "Rust node arenas: allocated slots equal reachable nodes; freed slots are reused",
@@ -154,6 +154,8 @@ PROPS = {
         "theorems": [
             "BPT.Props.C06.ids_exact", "BPT.Props.C06.free_list_exact", "BPT.Props.C06.allocated_eq_reachable",
             "BPT.Props.C06.reachable_nodes_stored", "BPT.Props.C06.clear_single_leaf", "BPT.Props.C06.alloc_reuses",
+            "BPT.Props.C06.introspection_agrees", "BPT.Props.C06.count_nodes_eq_allocated",
+            "BPT.Rust.lenFrom_spec", "BPT.Rust.leafCountFrom_spec", "BPT.Rust.countNodesFrom_spec", "BPT.Rust.leafSizesFrom_spec", "BPT.Rust.leafIdsFrom_spec",
             "BPT.Props.C02.reachable_sinv",
             "BPT.Rust.insertRec_bids", "BPT.Rust.removeRec_bids", "BPT.Rust.collapse_struct", "BPT.Rust.view_arenas",
         ],
@@ -163,8 +165,7 @@ PROPS = {
              "quick": {"cases": 100, "len": 300}, "thorough": {"cases": 3000, "len": 400}},
         ],
         "nontrivial": "a case is non-trivial when the tree reached a branch root and at least one removal returned a value; raw arena state (storage length, mask, free-list order) is compared with the model after every mutation; distinct = distinct op-line sequences",
-        "trusted_extra": ["the churn bound (slot total never exceeds the largest number of simultaneously live nodes) is decided by the oracle's ghost maximum on every history and follows informally from `alloc_reuses` + `ids_exact`; it is not yet a Lean theorem over histories",
-                          "introspection calls (leaf_count, count_nodes_in_tree, leaf_sizes, …) are modelled as raw readers and compared by the correspondence run; their Lean equalities with the tree are not proved yet"],
+        "trusted_extra": ["the churn bound (slot total never exceeds the largest number of simultaneously live nodes) is decided by the oracle's ghost maximum on every history and follows informally from `alloc_reuses` + `ids_exact`; it is not yet a Lean theorem over histories"],
     },
     "C10": {
         "title": "Rust checked/bulk API and constructors agree with the basic operations",
@@ -173,6 +174,7 @@ PROPS = {
         "theorems": [
             "BPT.Props.C10.new_rejects_iff", "BPT.Props.C10.new_ok", "BPT.Props.C10.default_ok",
             "BPT.Props.C10.try_get_spec", "BPT.Props.C10.get_many_spec", "BPT.Props.C10.batch_insert_eq_fold",
+            "BPT.Props.C10.validate_for_operation_ok",
             "BPT.Props.C01.step_refines", "BPT.Props.C02.reachable_sinv",
         ],
         "ties": ["BPT.Tie.rust_min_capacity", "BPT.Tie.rust_default_capacity", "BPT.Tie.rust_new_rejects_iff", "BPT.Tie.rust_empty_rejects_iff"],
@@ -181,7 +183,7 @@ PROPS = {
              "quick": {"cases": 40, "len": 150}, "thorough": {"cases": 1500, "len": 200}},
         ],
         "nontrivial": "case 0 enumerates new(c)/empty(c) for every c in 0..=4096 (complete); the other cases mix checked and basic calls — non-trivial when both an `ok` and an `err` answer occur; distinct = distinct op-line sequences",
-        "trusted_extra": ["that try_insert/try_remove/batch_insert/validate_for_operation never report an integrity error on API-built maps rests on the validators accepting valid states: observed on every call by the oracle and compared with the model's validators; `validators_accept` is not a Lean theorem yet"],
+        "trusted_extra": ["the checked wrappers themselves (try_insert = validate then insert, …) are modelled in the driver and compared call by call; the theorems give what they rest on: the basic operations (C01) and the validators accepting every API-built state (validate_for_operation_ok)"],
     },
     "C11": {
         "title": "Rust map never leaks or duplicates the keys and values it stores",
